@@ -58,6 +58,17 @@ PROPS = {
             dict(name="TestCtxHooks", quick=8000, thorough=60000, shards_thorough=16),
         ],
     ),
+    "C06": dict(
+        pkg="c06", level="exploration",
+        technique="property-based testing (rapid) inside testing/synctest bubbles: fake clock, gate-blocked handlers and a timing model as oracle",
+        level_text="Random search over async workloads (nesting, Once, sleeps on a fake clock, gate-blocked handlers), processor counts and Wait/Shutdown variants; 'returned too early' is observed without timing through gates and synctest quiescence, 'never returns' through the bubble's deadlock detection.",
+        level_note="Schedules inside the Go scheduler are sampled (GOMAXPROCS varied), not enumerated; Sequential handlers are left to C07.",
+        assumptions=COMMON_ASSUME + ["testing/synctest's fake clock and quiescence detection are faithful", "Wait is called on the publishing goroutine after the last publish (concurrent Wait||Publish is C03's business)"],
+        tests=[
+            dict(name="TestWaitShutdown", quick=4000, thorough=40000, shards_thorough=12),
+            dict(name="TestCancelDuringDispatch", quick=1500, thorough=20000, shards_thorough=4),
+        ],
+    ),
 }
 
 HOOK_COMMITS = []
